@@ -215,18 +215,27 @@ def run(ctx, rep):
         sw = doms[0] if doms else sws[0]
         DEL = delc[0].path
         RETAIN = re.compile(r"Vec::<T, A>::retain$")
-        loops_ = [C.loop_blocks(PR, h, l) for (l, h) in C.back_edges(PR)]
-        inner_ = sorted([bl for bl in loops_ if all(x in bl for x in sws)], key=len)
-        LOOP = inner_[0] if inner_ else set(range(len(PR.blocks)))
+        # natural loops merged per header (a `continue` adds a second back edge to the same header)
+        byh_ = {}
+        for (l, h) in C.back_edges(PR):
+            byh_.setdefault(h, set()).update(C.loop_blocks(PR, h, l))
+        inner_ = sorted([(len(bl), h, bl) for h, bl in byh_.items() if all(x in bl for x in sws)])
+        LOOP = inner_[0][2] if inner_ else set(range(len(PR.blocks)))
+        LOOP_H = inner_[0][1] if inner_ else None
         BACKS = set(C.back_edges(PR))
 
+        import pathsens
+
         def arm_region(variant, instant):
+            """blocks of the per-pack loop reachable when EVERY switch on pack.to_do (the match, `matches!` tests hoisted in front
+            of it, ...) takes the variant's edge and every test of instant_delete the edge for `instant`; bool locals built from
+            such tests are followed (pathsens)"""
             dv = None
             for v in prog.adt("commands::prune::PackToDo")["variants"]:
                 if v["name"] == variant:
                     dv = str(v["discr"])
 
-            def forced(bb):
+            def forced(body, bb):
                 if bb in sws:
                     t_ = PR.term(bb)
                     tg = [x for v, x in t_["targets"] if v == dv]
@@ -236,21 +245,9 @@ def run(ctx, rep):
                     if r:
                         return r[0] if instant else r[1]
                 return None
-            seen = set()
-            work = [forced(sw)]
-            first = work[0]
-            while work:
-                bb = work.pop()
-                if bb in seen or bb not in LOOP or bb == sw:
-                    continue
-                seen.add(bb)
-                f = forced(bb)
-                for x in ([f] if f is not None else PR.succ(bb)):
-                    if (bb, x) in BACKS:
-                        continue
-                    work.append(x)
-            return seen, first
-
+            ev = flag_eval("instant_delete", instant) if instant is not None else None
+            reach = set(pathsens.reachable_under(PR, forced, eval_expr=ev))
+            return reach & set(LOOP), reach
         def arm(variant, instant):
             return calls_in(PR, arm_region(variant, instant)[0])
 
@@ -279,17 +276,16 @@ def run(ctx, rep):
                     rep.check("C02.d", f"executor/{var}/{'instant' if m else 'deferred'}/{i}", not missing and not extra, where=where(PR, sw),
                               what=f"prune_repository, {var} ({'instant-delete' if m else 'no instant-delete'}): {meaning}" if not missing and not extra else
                                    f"prune_repository, {var} ({'instant-delete' if m else 'no instant-delete'}) should be '{meaning}' but " + (f"lacks {missing} " if missing else "") + (f"does {extra}" if extra else ""))
-        # Undecided is an error
-        reg, tgt = arm_region("Undecided", None)
-        # follow forced switches to the first block of the arm proper
-        hops = 0
-        while tgt in sws and hops < 6:
-            t_ = PR.term(tgt)
-            dvu = str([v["discr"] for v in prog.adt("commands::prune::PackToDo")["variants"] if v["name"] == "Undecided"][0])
-            tg = [x for v, x in t_["targets"] if v == dvu]
-            tgt = tg[0] if tg else t_["otherwise"]
-            hops += 1
-        rep.check("C02.d", "executor/Undecided", returns_err_only(PR, tgt), where=where(PR, sw), what="an undecided pack aborts prune with an error")
+        # Undecided is an error: with every pack undecided the loop body ends in an Err return - no index/removal effect, and the
+        # loop never goes round
+        reg, full_ = arm_region("Undecided", None)
+        latches = {l_ for (l_, h_) in BACKS if h_ == LOOP_H}
+        # (a block that returns is not part of the natural loop: look for the Err return among everything reachable from the loop)
+        from_loop_ = PR.reachable_from(list(reg)) & full_ if reg else set()
+        errs_ = any(s_[0] == "=" and s_[1] == [0] and s_[2][0] == "agg" and s_[2][1][0] == "adt" and s_[2][1][2] == "Err" for bb_ in from_loop_ for s_ in PR.blocks[bb_]["s"])
+        eff_ = [n for n in calls_in(PR, reg) if n in (ADD, ADDRM, DEL)]
+        oku = errs_ and not eff_ and not (latches & reg)
+        rep.check("C02.d", "executor/Undecided", oku, where=where(PR, sw), what="an undecided pack aborts prune with an error")
     # check_existing_packs: which decisions release a pack's blobs from the used set
     CE = prog.find1(r"^rustic_core::commands::prune::PrunePlan::check_existing_packs$")
     # decided per PackToDo variant by forcing every switch on pack.to_do (one match, nested matches! tests, if-chains alike)
